@@ -13,7 +13,7 @@
    object is left at count 0 without being freed.  [touches e]: e dereferences its key (retain, release, free, use,
    close).  [count_key w o k tr] / [count_op w o tr]: number of events of kind o on key k / on any key of store w. *)
 From Coq Require Import List NArith.
-From Mimium Require Import Heap.Model Heap.SlotMap Heap.Lemmas Heap.Monitor Heap.Closure Heap.Witness.
+From Mimium Require Import Heap.Model Heap.SlotMap Heap.Lemmas Heap.Monitor Heap.Witness.
 Import ListNotations.
 Local Open Scope N_scope.
 
@@ -69,21 +69,6 @@ Theorem C12_steady_state_partial :
     /\ mrun mach_new (prefix ++ concat (firstn i periods)) = Some mi
     /\ live_count mi w = live_count m0 w.
 Proof. exact steady_state. Qed.
-
-(* The closure layer of vm.rs is covered by the same monitor: whatever drop_closure (recursive release of the
-   captured closures, removal at count 0), release_heap_closure(s), release_open_closures, close_upvalues_by_idx,
-   CloneHeap, CloseHeapClosure and the Box instructions do to the two stores when they complete is exactly the
-   replay of the H2 events they emit, for any contents of the upvalue cells [up] and from any machine state. *)
-Theorem C12_closure_ops_replay :
-  forall (fuel : nat) (up : upvalue_oracle) (m : mach),
-  (forall id m' evs, drop_closure fuel up m id = Ok (m', evs) -> mrun m evs = Some m')
-  /\ (forall hk m' evs, release_heap_closure fuel up m hk = Ok (m', evs) -> mrun m evs = Some m')
-  /\ (forall hs m' evs, release_heap_closures fuel up m hs = Ok (m', evs) -> mrun m evs = Some m')
-  /\ (forall cs m' evs, release_open_closures fuel up m cs = Ok (m', evs) -> mrun m evs = Some m')
-  /\ (forall c m' evs, close_upvalues_by_idx up m c = Ok (m', evs) -> mrun m evs = Some m')
-  /\ (forall raw m' evs, close_heap_closure up m raw = Ok (m', evs) -> mrun m evs = Some m')
-  /\ (forall raw m' evs, clone_heap m raw = (m', evs) -> heap_settled m -> mrun m evs = Some m').
-Proof. exact closure_ops_replay. Qed.
 
 (* REFUTED on the current tree: being balanced (no use after release) does not bound the live objects of compiled
    programs.  [witness_trace] is the real VM's H2 log of `fn dsp(){ let x = 9.0  let f = | | { x - 5.0 }  f() }`
